@@ -50,8 +50,8 @@ func runC07(c *engine.Ctx, tier string) {
 		Why:     "COMMITTED is recorded only after the merge was persisted (or was already persisted before a crash)"})
 	c.Guard(engine.Guard{ID: "C07.2b", Pkg: pkgProposalCtl, Min: 2,
 		Sel:     engine.Sel{Field: "config/v2.ProposalAbortPhase.State", RHS: "config/v2.ProposalAbortPhase_ABORTED"},
-		Require: "#ok(" + stCfgUpdStat + ")",
-		Why:     "ABORTED is recorded only after the cursors were persisted past the proposal"})
+		Require: "#ok(" + stCfgUpdStat + ") || (@CFG.Status.Committed.Index >= @OWN && @CFG.Status.Applied.Index >= @OWN)",
+		Why:     "ABORTED is recorded only after the cursors were persisted past the proposal (in this pass, or — the resume test — in an earlier one)"})
 	c.Guard(engine.Guard{ID: "C07.2c", Pkg: pkgProposalCtl, Min: 2,
 		Sel:     engine.Sel{Field: "config/v2.ProposalApplyPhase.State", RHS: "config/v2.ProposalApplyPhase_FAILED"},
 		Require: "#wrote(" + fAppliedIdx + "=@OWN) && #ok(" + stCfgUpdStat + ")",
@@ -92,6 +92,16 @@ func runC07(c *engine.Ctx, tier string) {
 	// replay after a restart hands the controllers records that carry their log index and version: the
 	// transaction watcher enqueues the index, and every later write is conditional on the version
 	versionStamping(c, "C07.5", pkgStoreTxV2, true, 4)
+	// the abort step has a resume test like commit and apply: cursors written, ABORTED write lost (F57)
+	saved07 := c.Al
+	c.Al = proposalAliases(c.P)
+	c.Outcome(engine.Outcome{ID: "C07.6", Pkg: pkgProposalCtl, Root: "Reconciler.Reconcile", Min: 1,
+		When: "err(@P) == nil && @P.Status.Phases.Apply == nil && @P.Status.Phases.Abort != nil && @P.Status.Phases.Abort.State == config/v2.ProposalAbortPhase_ABORTING && err(@CFG) == nil && " +
+			"@CFG.Status.Committed.Index >= @OWN && @CFG.Status.Applied.Index >= @OWN",
+		Must:    []engine.Sel{{Field: "config/v2.ProposalAbortPhase.State", RHS: "config/v2.ProposalAbortPhase_ABORTED"}, {Call: stPropUpdStat}},
+		MustNot: []engine.Sel{{Call: stCfgUpdStat}, {Call: stCfgUpdate}},
+		Why:     "the abort writes the cursors first and the ABORTED state second: a pass that finds both cursors at or past the proposal only records the state, otherwise a lost second write leaves the proposal ABORTING for ever"})
+	c.Al = saved07
 }
 
 // afterSet keeps only applied-cursor writes that happen on a path on which the device Set was
